@@ -252,7 +252,8 @@ func WriteError(w http.ResponseWriter, err error) error {
 // field in the marshaled error.
 //
 // If err wraps [HTTPError] and no HTTP status code is known
-// for the error code, [HTTPError.StatusCode] will be used.
+// for the error code, [HTTPError.StatusCode] will be used
+// when it is an error status (4xx or 5xx).
 func MarshalError(err error) (errorBody []byte, httpStatus int) {
 	var e WireError
 	// TODO perhaps we should iterate through all the
@@ -278,7 +279,13 @@ func MarshalError(err error) (errorBody []byte, httpStatus int) {
 	} else {
 		var httpErr HTTPError
 		if errors.As(err, &httpErr) {
-			httpStatus = httpErr.StatusCode()
+			// An error is never reported with a status that isn't
+			// an error status: a client would take a 1xx or 2xx
+			// response for success (and net/http refuses anything
+			// outside 100-999 outright).
+			if status := httpErr.StatusCode(); status >= 400 && status <= 599 {
+				httpStatus = status
+			}
 		}
 	}
 	// Prevent the message from containing a redundant
